@@ -37,3 +37,8 @@ func NewDataProvider() *envDataProvider {
 func (e *envDataProvider) GetUnderlying() any {
 	return nil
 }
+
+// FlatSource reports that the environment has no nested records: nested structs read from the same variables
+func (e *envDataProvider) FlatSource() bool {
+	return true
+}
